@@ -263,7 +263,7 @@ func c07Methods() (methods []string, spec map[string]c03Spec) {
 
 func replayC07(raw json.RawMessage) (string, error) {
 	var pc c07ProgCase
-	if json.Unmarshal(raw, &pc) == nil && (pc.Kept != nil || pc.Decoy != nil || pc.Direct || pc.ProgEarly > 0) {
+	if json.Unmarshal(raw, &pc) == nil && (pc.Kept != nil || pc.Decoy != nil || pc.Direct || pc.ProgEarly > 0 || pc.Nested > 0) {
 		sig, what := c07ProgRun(newCPUCtx(), pc)
 		if sig == "" {
 			return "the CPU fetches exactly at the reported instruction starts", nil
@@ -335,7 +335,7 @@ func runC07(r *report.Run) {
 	r.Set("bfs_levels", depth)
 	r.Set("transition_alphabet", map[string]interface{}{"instruction_methods": len(methods) - len(c07Excluded), "excluded": []string{"PLP", "RTI", "RTS", "RTL"}, "REP/SEP masks": 256, "AssumeREP/AssumeSEP masks": 256, "per_state": len(trans)})
 	r.Set("fixpoint", true)
-	r.Set("rule", "BFS to a fixpoint over the joint state (tracked flags byte; CPU m and x, which relation R ties to it) from the four initial width assumptions; every transition really calls the Emitter method on a fresh emitter -- directly, on a Clone that is Appended back (the tracked widths travel with the code; the clone's target a buffer of its own or the free tail of the parent's), and on a Clone whose Append is refused for lack of room (nothing may travel) -- (every instruction method with one operand representative, control transfers aimed at the next instruction, label branches finalized to displacement 0, REP/SEP and AssumeREP/AssumeSEP with all 256 masks) and then really Steps both CPUs over the emitted bytes: the first bus read must be the opcode fetch at the address the assembler reported, the CPU must end exactly at the assembler's next instruction start and its m/x must equal the tracked widths; width-guarded immediates must be refused exactly on mismatch without touching the emitter. By induction on the length this covers every straight-line program over the alphabet. Whole programs with label references: a head with 0..8 early-outs to a common exit label, every sequence up to 3 over {BNE exit, NOP, BNE top} emitted directly, through a Clone, or through a Clone next to a sibling Clone (every sequence up to 3 over {BNE exit, NOP, JMP exit}, created first or second) that is dropped, a tail with width switches, Finalize; both CPUs are stepped from the base address and must stand at every reported instruction start (no branch is taken)")
+	r.Set("rule", "BFS to a fixpoint over the joint state (tracked flags byte; CPU m and x, which relation R ties to it) from the four initial width assumptions; every transition really calls the Emitter method on a fresh emitter -- directly, on a Clone that is Appended back (the tracked widths travel with the code; the clone's target a buffer of its own or the free tail of the parent's), and on a Clone whose Append is refused for lack of room (nothing may travel) -- (every instruction method with one operand representative, control transfers aimed at the next instruction, label branches finalized to displacement 0, REP/SEP and AssumeREP/AssumeSEP with all 256 masks) and then really Steps both CPUs over the emitted bytes: the first bus read must be the opcode fetch at the address the assembler reported, the CPU must end exactly at the assembler's next instruction start and its m/x must equal the tracked widths; width-guarded immediates must be refused exactly on mismatch without touching the emitter. By induction on the length this covers every straight-line program over the alphabet. Whole programs with label references: a head with 0..8 early-outs to a common exit label, every sequence up to 3 over {BNE exit, NOP, BNE top} emitted directly, through a Clone (also with one of the calls going through a clone of the clone), or through a Clone next to a sibling Clone (every sequence up to 3 over {BNE exit, NOP, JMP exit}, created first or second) that is dropped, a tail with width switches, Finalize; both CPUs are stepped from the base address and must stand at every reported instruction start (no branch is taken)")
 	r.Sample(c07Trans{0x20, "LDA_imm8_b", -1, 0})
 	r.Sample(c07Trans{0x30, "REP", 0x31, 1})
 	r.Assume("operand values do not influence instruction length (C03 covers every operand value); one representative per method")
